@@ -51,6 +51,7 @@ pub fn gen(rng: &mut Rng, tier: Tier, idx: u64) -> Case {
         c.cancel = gen_cancel(rng, &script, 500);
         c.read_script = script;
         c.read_tail = tail;
+        c.reader_style = rng.below(3) as u8;
         return c;
     }
     hostile_case(rng, tier, idx, "C03", "c03-hostile", 10)
